@@ -42,7 +42,8 @@ PROPS["C03"] = {
     "assumptions": ["Go's regexp package is the reference RE2 implementation", "names are non-empty printable ASCII without whitespace"],
     "quick": [R("TestPropMatcher", 40000), R("TestPropMatcherRegexOnly", 40000), R("TestPropPlaces", 4000), R("TestPropAggCache", 1500)],
     "thorough": [R("TestPropMatcher", 400000, shards=5, timeout=1500), R("TestPropMatcherRegexOnly", 400000, shards=4, timeout=1500),
-                 R("TestPropPlaces", 40000, shards=5, timeout=1500), R("TestPropAggCache", 15000, shards=2, timeout=1500)],
+                 R("TestPropPlaces", 40000, shards=5, timeout=1500), R("TestPropAggCache", 15000, shards=2, timeout=1500),
+                 F("FuzzMatcher", "120s")],
 }
 
 PROPS["C09"] = {
